@@ -8,10 +8,13 @@ class C04(Property):
     id = "C04"
     lean_module = "RosuModel.Props.C04All"   # imports Props/C04Slider.lean, Props/C04Timing.lean (which import Props/C04.lean), Props/C04File.lean, Props/C04Toy.lean, Props/C04Decoded.lean and Props/C04Ieee.lean; all in namespace Rosu.C04
     theorem_modules = ['RosuModel.Props.C04All', 'RosuModel.Props.C04Ieee', 'RosuModel.Props.C04DecodedIeee', 'RosuModel.Props.C04DecodedObjects', 'RosuModel.Props.C04DecodedObjectsToy',
-                       'RosuModel.Props.C04DecodedObjectsIeee', ('RosuModel.Lemmas.DecodedObjInv', 'Rosu.DecodedObj')]   # files whose top-level theorems are all audited
+                       'RosuModel.Props.C04DecodedObjectsIeee', ('RosuModel.Lemmas.DecodedObjInv', 'Rosu.DecodedObj'),
+                       'RosuModel.Props.C04DecodedTiming', 'RosuModel.Props.C04DecodedTimingToy', 'RosuModel.Props.C04DecodedTimingIeee']   # files whose top-level theorems are all audited
     namespace = "Rosu.C04"
     design_ref = "5.4"
     required_theorems = [
+        "decoded_stored_points_rep", "decoded_repTimingMap_partial", "timing_lines_accepted_decoded", "encoded_file_accepted_decoded", "decoded_repTimingMap_statement_false",
+        "decoded_stored_points_rep_ieee", "timing_lines_accepted_decoded_ieee", "svLaws_float",
         "decoded_circles_representable", "decoded_spinners_representable", "decoded_holds_representable", "decoded_sliders_representable_partial", "hitobjects_block_accepted_decoded",
         "encoded_file_accepted_decoded_partial", "objLaws_ieee", "decoded_circles_representable_ieee", "durLaws_float_false", "objF21_not_repObject","headers_recognised", "encode_shape", "block_starts_with_header", "encoded_text_lines", "version_line_parses",
                          "record_blocks_are_lines", "lines_of_block", "record_lines_accepted_metadata", "record_lines_accepted_colours",
@@ -111,6 +114,17 @@ class C04(Property):
             "with sliders; the line is accepted anyway: objBar_accepted_anyway); and SliderResidual.shape = the type / shape half of RepPath (where F17 lives), which is ASSUMED, not yet derived from convert_path_str - hence _partial. F18 does not enter. "
             "Corollaries: hitobjects_block_accepted_decoded (C04.hitobjects_block_accepted with RepObject discharged), decoded_repMap_partial, encoded_file_accepted_decoded_partial (the file-level statement for decoded maps; RepTimingMap stays a hypothesis). "
             "Non-vacuity: three decoded files (circle with hit.wav, spinner, hold) evaluated in the kernel. The unconditional statement is refuted on a decoded file: objF21_not_repObject (`256,192,1000,1,0,0:0:0:0:a ,x` gives the file name `a `)",
+        "decoded_repTimingMap_partial / timing_lines_accepted_decoded / encoded_file_accepted_decoded (the [TimingPoints] block of DECODED maps; the file-level statement with no Rep* hypothesis)":
+            "sixth session (Props/C04DecodedTiming*.lean, Lemmas/DecodedNodeInv.lean, Lemmas/FloatDivAnti.lean). decoded_stored_points_inv / decoded_stored_points_rep: every control point stored in a decoded map's four lists "
+            "satisfies the per-point clauses of RepTimingMap (times within the limit, numerators, beat lengths in [6, 60000], slider velocities in [0.1, 10], scroll speeds 1 or in [0.01, 10], custom banks, volumes 0..100; "
+            "the -100/v form the encoder writes is representable and within the beat limit: the ONE arithmetic law SvLaws, a theorem for IEEE doubles - svLaws_float, from the new div_le_div_left_neg_float) - mode-independent, so F15 does not break it; "
+            "for the IEEE instances with NO hypothesis beyond 'the bytes decode to m' (decoded_stored_points_rep_ieee). Collected points: collected_point_origin (every sample point of collect_samples is a stored one or "
+            "comes from a named object's collectObject call), decoded_collected_custom (via the new node-sample invariant decoded_nodesOk), decoded_collected_sorted. decoded_repTimingMap_partial: RepTimingMap of a decoded map under the "
+            "single residual CollectedTimesInLimit (every time the encoder collects - object ends, slider nodes - is within the parse limit; reduced to SliderTimesInLimit / SliderEndInLimit in taiko / mania) - the residual is "
+            "necessary: decoded_repTimingMap_statement_false (a slider at 2147483647 collects a point beyond the limit). RepTimingMap has no distinctness clause, so F22 does not enter ACCEPTANCE (it concerns re-decoded counts). "
+            "Hence timing_lines_accepted_decoded(_ieee), decoded_repMap and encoded_file_accepted_decoded: the file-level C04 statement for decoded maps with no Rep* hypothesis left - only codec / arithmetic laws and the "
+            "findings' predicates (NoDoubleSlash F16, ObjResidual F17 F20 F21, CollectedTimesInLimit). PARTIAL because the objects block still takes DurLaws (refuted for IEEE by the sign of a zero) and CtrlLaws "
+            "(toy only), so at the IEEE instance the timing half and the circles are unconditional and the file-level statement is not yet",
         "list_block_lines_accepted_statement (unconditional)":
             "NOT a theorem: that every object (RepObject) and every collected control point (RepTimingMap) of a DECODED map is representable (i.e. that a decoded map satisfies RepMap), which would "
             "discharge the hypothesis of encoded_file_accepted for every decoded map. It is false as stated (findings F20; computed sample-point times can be non-finite) and is evaluated on "
